@@ -147,37 +147,102 @@ KIND_OF = {stat.S_IFREG: "f", stat.S_IFDIR: "d", stat.S_IFLNK: "l", stat.S_IFIFO
            stat.S_IFCHR: "c", stat.S_IFBLK: "b"}
 
 
-def snapshot(root, content_facts=True, max_text=4096):
-    """pre-order list of nodes under `root` in readdir order (os.scandir order == readdir order).
-    Each node: dict(rel, name, depth, kind, size, mode, uid, gid, nlink, ino, dev, mtime, target, facts)."""
-    nodes = []
+TZ_OFFSETS = {"UTC": 0, "<+03>-3": 10800, "<-0530>5:30": -19800}
 
-    def node(path, rel, name, depth):
-        st = os.lstat(path)
-        kind = KIND_OF.get(stat.S_IFMT(st.st_mode), "?")
-        n = {"rel": rel, "name": name, "depth": depth, "kind": kind, "size": st.st_size, "mode": st.st_mode,
-             "uid": st.st_uid, "gid": st.st_gid, "nlink": st.st_nlink, "ino": st.st_ino, "dev": st.st_dev,
-             "mtime": int(st.st_mtime), "blocks": st.st_blocks, "target": None, "facts": {}}
-        if kind == "l":
-            n["target"] = os.readlink(path)
-        if content_facts and kind == "f":
-            try:
-                with open(path, "rb") as f:
-                    data = f.read()
-                n["facts"]["nl"] = data.count(b"\n")
-                n["facts"]["sb"] = 1 if data[:2] == b"#!" else 0
-                n["facts"]["sha1"] = hashlib.sha1(data).hexdigest()
-                n["facts"]["sha256"] = hashlib.sha256(data).hexdigest()
-                n["facts"]["sha512"] = hashlib.sha512(data).hexdigest()
-                n["facts"]["sha3"] = hashlib.sha3_512(data).hexdigest()
-                if len(data) <= max_text:
-                    try:
-                        n["facts"]["text"] = data.decode("utf-8")
-                    except UnicodeDecodeError:
-                        pass
-            except OSError:
-                n["facts"]["unreadable"] = 1
-        return n
+
+def _user(uid):
+    import pwd
+    try:
+        return pwd.getpwuid(uid).pw_name
+    except KeyError:
+        return None
+
+
+def _group(gid):
+    import grp
+    try:
+        return grp.getgrgid(gid).gr_name
+    except KeyError:
+        return None
+
+
+def node_of(path, rel, name, depth, content_facts=True, max_text=4096, zip_exts=(".zip", ".jar", ".war", ".ear")):
+    st = os.lstat(path)
+    kind = KIND_OF.get(stat.S_IFMT(st.st_mode), "?")
+    n = {"rel": rel, "name": name, "depth": depth, "kind": kind, "size": st.st_size, "mode": st.st_mode,
+         "uid": st.st_uid, "gid": st.st_gid, "nlink": st.st_nlink, "ino": st.st_ino, "dev": st.st_dev,
+         "mtime": int(st.st_mtime), "blocks": st.st_blocks, "target": None, "facts": {},
+         "user": _user(st.st_uid), "group": _group(st.st_gid)}
+    f = n["facts"]
+    if kind == "l":
+        n["target"] = os.readlink(path)
+        try:
+            f["real"] = os.path.realpath(path, strict=True)
+        except OSError:
+            pass
+    # what the content readers see (they follow links; special files are refused)
+    try:
+        tst = os.stat(path)
+        tkind = KIND_OF.get(stat.S_IFMT(tst.st_mode), "?")
+    except OSError:
+        tkind = None
+    if content_facts and tkind == "f":
+        try:
+            with open(path, "rb") as fh:
+                data = fh.read()
+            f["nl"] = data.count(b"\n")
+            f["sb"] = 1 if data[:2] == b"#!" else 0
+            f["sha1"] = hashlib.sha1(data).hexdigest()
+            f["sha256"] = hashlib.sha256(data).hexdigest()
+            f["sha512"] = hashlib.sha512(data).hexdigest()
+            f["sha3"] = hashlib.sha3_512(data).hexdigest()
+            if len(data) <= max_text:
+                try:
+                    f["text"] = data.decode("utf-8")
+                except UnicodeDecodeError:
+                    pass
+            if path.lower().endswith(tuple(zip_exts)):
+                f["zip"] = read_zip(path)
+        except OSError:
+            f["unreadable"] = 1
+    if tkind in ("f", "d"):
+        try:
+            xs = os.listxattr(path)
+            f["xa"] = 1 if xs else 0
+            f["xattrs"] = {}
+            for x in xs:
+                try:
+                    f["xattrs"][x] = os.getxattr(path, x)
+                except OSError:
+                    pass
+        except OSError:
+            pass
+    if kind == "d":
+        try:
+            with os.scandir(path) as it:
+                f["empty"] = 0 if any(True for _ in it) else 1
+        except OSError:
+            f["unlistable"] = 1
+    return n
+
+
+def read_zip(path):
+    """member table as the zip crate reports it; None if unreadable"""
+    import zipfile
+    try:
+        with zipfile.ZipFile(path) as z:
+            out = []
+            for i in z.infolist():
+                mode = (i.external_attr >> 16) if i.create_system == 3 and (i.external_attr >> 16) != 0 else None
+                out.append({"name": i.filename, "size": i.file_size, "mode": mode, "date": list(i.date_time)})
+            return out
+    except Exception:
+        return None
+
+
+def snapshot(root, content_facts=True, max_text=4096):
+    """(top node, pre-order list of nodes under `root` in readdir order)."""
+    nodes = []
 
     def walk(path, rel, depth):
         try:
@@ -188,13 +253,72 @@ def snapshot(root, content_facts=True, max_text=4096):
         for name in names:
             p = os.path.join(path, name)
             r = (rel + "/" + name) if rel else name
-            n = node(p, r, name, depth)
+            n = node_of(p, r, name, depth, content_facts, max_text)
             nodes.append(n)
             if n["kind"] == "d":
-                kids = walk(p, r, depth + 1)
-                if kids is None:
-                    n["facts"]["unlistable"] = 1
+                walk(p, r, depth + 1)
         return True
 
+    top = node_of(root, "", os.path.basename(root), 0, content_facts, max_text)
     walk(root, "", 1)
-    return nodes
+    return top, nodes
+
+
+def days_from_civil(y, m, d):
+    import datetime
+    return (datetime.date(y, m, d) - datetime.date(1970, 1, 1)).days
+
+
+def node_line(n, tzoff):
+    from common import hx
+    f = n["facts"]
+    fields = [str(n["depth"]), hx(n["name"]), n["kind"], str(n["size"]), str(n["mode"]), str(n["uid"]), str(n["gid"]),
+              str(n["nlink"]), str(n["ino"]), str(n["dev"]), str(n["blocks"]), str(n["mtime"] + tzoff),
+              hx(n["user"]) if n["user"] is not None else "!", hx(n["group"]) if n["group"] is not None else "!"]
+    for k in ("nl", "sb", "sha1", "sha256", "sha512", "sha3", "empty", "xa", "unlistable"):
+        if k in f:
+            fields.append("%s=%s" % (k, f[k]))
+    if "text" in f:
+        fields.append("text=" + hx(f["text"]))
+    if "real" in f:
+        fields.append("real=" + hx(f["real"]))
+    if "xattrs" in f:
+        for k, v in f["xattrs"].items():
+            try:
+                fields.append("xattr=%s:%s" % (hx(k), hx(v.decode("utf-8"))))
+            except UnicodeDecodeError:
+                fields.append("xattr=%s:!" % hx(k))
+    if "zip" in f:
+        z = f["zip"]
+        if z is None:
+            fields.append("zip=corrupt")
+        elif not z:
+            fields.append("zip=empty")
+        else:
+            ms = []
+            for m in z:
+                y, mo, d, h, mi, s = m["date"]
+                try:
+                    t = days_from_civil(y, mo, d) * 86400 + h * 3600 + mi * 60 + s
+                    ts = str(t)
+                except ValueError:
+                    ts = "-"
+                ms.append("%s:%d:%s:%s" % (hx(m["name"]), m["size"], "-" if m["mode"] is None else m["mode"], ts))
+            fields.append("zip=" + ";".join(ms))
+    return "\t".join(fields)
+
+
+def send_snapshot(model, root, top, nodes, cwd, tz="UTC"):
+    from common import hx
+    tzoff = TZ_OFFSETS[tz]
+    r = model.ask_raw("fs-begin\t%s\t%s" % (hx(os.path.realpath(root)), hx(os.path.realpath(cwd))))
+    if r != "ok":
+        return False
+    for n in nodes:
+        if model.ask_raw("node\t" + node_line(n, tzoff)) != "ok":
+            return False
+    return model.ask_raw("fs-end\t" + node_line(top, tzoff)) == "ok"
+
+
+def model_today(tz="UTC"):
+    return int((time.time() + TZ_OFFSETS[tz]) // 86400)
